@@ -29,6 +29,7 @@ type c13Case struct {
 	Background int   `json:"background"`
 	Desc       bool  `json:"descending_order,omitempty"`
 	Zero       int   `json:"zero_size_runners,omitempty"` // mask over stateless (field-less) runner types Z1,Z2,Z3
+	ErrShape   int   `json:"err_shape,omitempty"`         // what kind of error value the failing runner returns (scen.Err*)
 }
 
 func c13Gen(c *core.Ctx) func(yield func(c13Case) bool) {
@@ -38,11 +39,29 @@ func c13Gen(c *core.Ctx) func(yield func(c13Case) bool) {
 			for _, s := range [][]int{nil, {10}, {0, 5}} {
 				for bg := 0; bg < 3; bg++ {
 					for _, d := range []bool{false, true} {
-						if !yield(c13Case{s, 0, -1, bg, d, z}) {
+						if !yield(c13Case{s, 0, -1, bg, d, z, 0}) {
 							return
 						}
 					}
 				}
+			}
+		}
+		// every shape of error value a failing runner may return (causer without cause, empty message, ...)
+		for shape := 1; shape < scen.NumErrShapes; shape++ {
+			stop := false
+			seqs(2, 11, func(s []int) bool {
+				for f := 0; f < len(s); f++ {
+					for _, m := range []int{0, 1<<len(s) - 1} {
+						if !yield(c13Case{Seq: s, LazyMask: m, Fail: f, ErrShape: shape}) {
+							stop = true
+							return false
+						}
+					}
+				}
+				return true
+			})
+			if stop {
+				return
 			}
 		}
 		maxLen := 3
@@ -65,7 +84,7 @@ func c13Gen(c *core.Ctx) func(yield func(c13Case) bool) {
 				for f := -1; f < n; f++ {
 					for bg := 0; bg < 3; bg++ {
 						for _, d := range []bool{false, true} {
-							if !yield(c13Case{s, m, f, bg, d, 0}) {
+							if !yield(c13Case{s, m, f, bg, d, 0, 0}) {
 								return false
 							}
 						}
@@ -81,7 +100,7 @@ func c13Run(c *core.Ctx) {
 	Cases(c, c13Gen(c), func(c *core.Ctx, cs c13Case) {
 		n := len(cs.Seq)
 		names := make([]string, n)
-		p := &scen.GraphProg{N: 2, Edges: mkEdges(2), Obs: 1}
+		p := &scen.GraphProg{N: 2, Edges: mkEdges(2), Obs: 1, ErrShape: cs.ErrShape}
 		switch cs.Background {
 		case 0: // chain
 			p.Edges[0][1] = scen.EName
@@ -164,6 +183,9 @@ func c13Run(c *core.Ctx) {
 		}
 		key := func(kind string) string { return "C13/" + kind + "/" + core.Hash(cs) }
 		desc := fmt.Sprintf("runners %v lazy=%b failing=%d background=%d", symn, cs.LazyMask, cs.Fail, cs.Background)
+		if cs.ErrShape != 0 {
+			desc += fmt.Sprintf(" error-shape=%d", cs.ErrShape)
+		}
 		if o.Panic != "" || o.Abort != "" {
 			c.Outcome("crash")
 			c.Report(key("crash"), "panic", desc+": "+o.Panic+o.Abort, cs)
@@ -267,7 +289,7 @@ func c13Run(c *core.Ctx) {
 // c13Yield4: four runners (thorough): all eager, every failing position, one background, one order.
 func c13Yield4(yield func(c13Case) bool, s []int) bool {
 	for f := -1; f < 4; f++ {
-		if !yield(c13Case{s, 0, f, 1, false, 0}) {
+		if !yield(c13Case{s, 0, f, 1, false, 0, 0}) {
 			return false
 		}
 	}
